@@ -31,6 +31,12 @@ def enumerated(tier, seed):
     cases = []
     for tau in range(2, (7 if q else 9) + 1):
         cases.append({"kind": "clique", "tau": tau})
+    # plain-number neighbour values whose symmetric sums cancel exactly (mixed signs), repeated values, zeros, ones:
+    # points a value-dependent shortcut would single out
+    for Hs in ([0.5, -0.5], [1.0, -1.0], [0.75, -0.25, -0.5], [2.0, 2.0, -1.0], [1.0, 1.0, -2.0], [1.0, -1.0, 0.5, -0.5],
+               [1.0, 1.0, -1.0, -1.0], [0.0, 0.0], [0.0, 0.5, 0.0], [1.0, 1.0, 1.0], [0.5, 0.5, 0.5, 0.5], [2.0, 0.5],
+               [3.0, -3.0, 0.25, 0.25, 1.0], [0.25, 0.0, -0.25, 4.0, 0.5]):
+        cases.append({"kind": "clique_points", "Hs": Hs})
     for n in range(3, (12 if q else 16) + 1):
         cases.append({"kind": "cycle", "n": n})
     for n in range(1, (12 if q else 16) + 1):
@@ -85,7 +91,10 @@ def counter_case(draw, tier):
         ak = ak + [focal]  # e.g. ak = list(G.nodes())
     elif style == "repeated" and ak:
         ak = ak + [ak[0]]
-    return {"kind": "counter", "n": n, "edges": [[lab[a], lab[b]] for a, b in edges], "nodes": lab,
+    # a substrate may carry self-loops (a generated network does, when a vertex is drawn twice into one motif): a
+    # loop is one more edge of the induced subgraph, and connects nothing
+    loops = draw(st.one_of(st.just([]), st.just([]), st.lists(st.integers(0, n - 1), unique=True, max_size=3)))
+    return {"kind": "counter", "n": n, "edges": [[lab[a], lab[b]] for a, b in edges] + [[lab[v], lab[v]] for v in loops], "nodes": lab,
             "focal": lab[focal], "ak": [lab[v] for v in ak]}
 
 
@@ -136,6 +145,20 @@ def check(case):
             raise Violation("clique-identity", f"clique_equation(tau={tau}) differs from the exact expectation on K_{tau}: "
                                                f"{len(d.t)} differing terms, e.g. {str(d)[:300]}")
         return {"nontrivial": tau >= 3, "classes": ["clique_table"]}
+    if k == "clique_points":
+        Hs = case["Hs"]
+        tau = len(Hs) + 1
+        base = _co.get(tau)
+        if base is None:
+            base = _co[tau] = clique_oracle(tau)
+        for phi in (0.0, 0.25, 0.5, 0.9, 1.0):
+            for order in (list(Hs), list(reversed(Hs))):
+                got = call("clique_equation", clique_equation, tau, phi, list(order))
+                w = base.subs({**{f"u{i + 1}": Fraction(h) for i, h in enumerate(order)}, "p": Fraction(phi)})
+                if abs(float(got) - float(w)) > 1e-9 * max(1.0, abs(float(w))):
+                    raise Violation("clique-special-point", f"clique_equation(tau={tau}, phi={phi}, Hs={order}) = {got!r}, exact "
+                                                            f"expectation {float(w)!r}")
+        return {"nontrivial": tau >= 3, "classes": ["clique_special_points"]}
     if k == "cycle":
         n = case["n"]
         nodes = list(range(n))
@@ -228,6 +251,8 @@ def check(case):
         raise Violation("counter-mutates", "the substrate graph was modified")
     cyc = len(sub_edges) >= len(keep) >= 3
     cl = ["counter"]
+    if any(e[0] == e[1] for e in sub_edges):
+        cl.append("self_loop_in_induced_subgraph")
     H = nx.Graph()
     H.add_nodes_from(keep)
     H.add_edges_from(sub_edges)
